@@ -516,6 +516,11 @@ def r4(ctx):
     aps = util.single_def(oc.node, "accessible_positions_set")
     ok = aps is not None and u(aps) == "set(accessible_positions)"
     ctx.ob(oc.qual, "accessible-set", ok, oc.loc(), "accessible_positions_set = set(accessible_positions)" if ok else "accessible_positions_set changed")
+    # every sample's set of heterozygous positions is its own object: dict.fromkeys(keys, set()) stores ONE set under every
+    # key, so a position heterozygous in one family member would count as heterozygous in all of them
+    shared = [c for c in ctx.prog.calls_in(oc.node) if u(c.func) in ("dict.fromkeys", "defaultdict.fromkeys", "OrderedDict.fromkeys") and len(c.args) == 2 and (isinstance(c.args[1], (ast.Set, ast.List, ast.Dict, ast.ListComp, ast.SetComp, ast.DictComp)) or (isinstance(c.args[1], ast.Call) and u(c.args[1].func) in ("set", "list", "dict", "defaultdict", "Counter")))]
+    per_sample = [s_ for s_ in util.store_sites(oc.node) if s_.kind == "subscript" and u(s_.target.value) == "heterozygous_positions_by_sample"]
+    ctx.ob(oc.qual, "per-sample-heterozygous-sets-are-distinct-objects", (False if shared else (True if per_sample else None)), oc.loc(shared[0]) if shared else oc.loc(), "each sample's heterozygous positions are collected in a set of its own" if not shared and per_sample else ("`%s` stores one and the same object under every key: all family members share one set of heterozygous positions, and reads link variants their own sample is homozygous for" % u(shared[0])[:80] if shared else "cannot see where the per-sample sets are stored"))
     # hom_in_any_sample only gets homozygous allele pairs of accessible positions
     # which super-read allele pairs put a position into hom_in_any_sample: a membership test on a literal set of pairs,
     # or a literal dict that maps allele pairs to the collecting sets
